@@ -491,8 +491,25 @@ class Compiler:
                 name = decl.id.name
                 if decl.init:
                     self._compile_expression(decl.init)
+                elif self._in_function:
+                    # `var x;` only declares: a value the variable already has
+                    # (an argument, an earlier assignment, a previous loop
+                    # iteration) stays
+                    self._add_local(name)
+                    continue
                 else:
+                    # At program level the declaration creates the global if it
+                    # does not exist yet, and leaves an existing one alone
+                    idx = self._add_name(name)
+                    self._emit(OpCode.TYPEOF_NAME, idx)
+                    self._emit(OpCode.LOAD_CONST, self._add_constant("undefined"))
+                    self._emit(OpCode.SEQ)
+                    skip = self._emit_jump(OpCode.JUMP_IF_FALSE)
                     self._emit(OpCode.LOAD_UNDEFINED)
+                    self._emit(OpCode.STORE_NAME, idx)
+                    self._emit(OpCode.POP)
+                    self._patch_jump(skip)
+                    continue
 
                 if self._in_function:
                     # Inside function: use local variable
